@@ -12,7 +12,53 @@ def _call(task):
         return dict(failed=True, crashed=True, observed=traceback.format_exc()[-900:], expected='no exception')
 
 
+def lemmas(ctx):
+    """Lemmas over the contracts (not over bodies)."""
+    import time
+    import z3
+    from pyvc import theory as T
+    v, b, num = z3.Ints('v b num')
+    P = T.pow2
+    goals = {
+        # Const.__init__ post-checks cannot fire after an accepted conversion (contract of
+        # infer_val_and_bitwidth: 0 <= num < 2**bw, bw >= 1)
+        'Const.__init__: accepted conversion never trips the internal range checks':
+            ([b >= 1, num >= 0, num < P(b)], z3.And(z3.Not(num < 0), num / P(b) == 0)),
+        # rev_twos_comp_repr(twos_comp_repr(v, b), b) == v on twos_comp_repr's accepted domain
+        'rev_twos_comp_repr inverts twos_comp_repr':
+            ([b >= 1, z3.If(v >= 0, v, -v) < P(b - 1)],
+             z3.If(v % P(b) >= P(b - 1), v % P(b) - P(b), v % P(b)) == v),
+        # and the other way round on rev's accepted domain (r != 2**(b-1), 0 <= r < 2**b)
+        'twos_comp_repr inverts rev_twos_comp_repr':
+            ([b >= 1, num >= 0, num < P(b), num != P(b - 1)],
+             z3.If(num >= P(b - 1), num - P(b), num) % P(b) == num),
+        # val_to_signed_integer inverts the signed encoding of infer_val_and_bitwidth
+        'val_to_signed_integer(encode(v, b), b) == v':
+            ([b >= 1, v >= -P(b - 1), v < P(b - 1)],
+             z3.If(v % P(b) >= P(b - 1), v % P(b) - P(b), v % P(b)) == v),
+    }
+    for nm, (hyps, goal) in goals.items():
+        s = z3.Solver()
+        s.set('timeout', 20000)
+        fs = hyps + [z3.Not(goal)]
+        s.add(*fs)
+        s.add(*T.ground_axioms(fs))
+        t0 = time.time()
+        r = s.check()
+        ctx.obligation('C16.lemma:' + nm, 'contracts of the conversion helpers',
+                       'proved' if r == z3.unsat else 'undecided', 'z3', time.time() - t0,
+                       detail=None if r == z3.unsat else str(r))
+
+
 def run(ctx):
+    import contracts.helperfuncs  # noqa: F401
+    import contracts.libutils     # noqa: F401
+    from pyvc.contract import REGISTRY
+    from pyvc import run as prun
+    for mod in ('contracts.helperfuncs', 'contracts.libutils'):
+        cs = [c for c in REGISTRY.values() if 'C16' in c.props and c.__class__.__module__ == mod]
+        prun.run_contracts(ctx, cs, mod)
+    lemmas(ctx)
     q = ctx.tier == 'quick'
     tasks = [
         dict(fn='ints', kw=dict(vmax=70 if q else 300, bwmax=8 if q else 10)),
@@ -50,5 +96,10 @@ def run(ctx):
                    exhaustive=True,
                    bound='complete enumeration within %r (canonical first failing input reported)' % t['kw'],
                    sample=t)
-    return ctx.finish('other', './check C16', ['CPython'],
-                      'bounded (level B): executable contracts evaluated exhaustively within the stated bounds')
+    ctx.assume('Python int = mathematical integer; len(bin(x))-2 == bit_length (1 for 0); bit-operation '
+               'rewrites of DESIGN 3.2 incl. x & 2**k and x & (x-1) == 0 <=> power of two (lean/PyInt.lean)')
+    ctx.assume('_convert_verilog_str, formatted_str_to_val/val_to_formatted_str, bitpattern_to_val are string '
+               'code outside pyvc: covered by the exhaustive bounded families only')
+    return ctx.finish('proof', './check C16', ['z3', 'pyvc', 'int theory of DESIGN 3.2'],
+                      'P: integer conversion helpers proved against the representability contract for all '
+                      'values/bitwidths; B: string helpers and round trips exhaustively within bounds')
